@@ -29,6 +29,7 @@ var (
 	pInPlaceLong     = simrt.NewProbe("cfb8.call.len>2blocks.in.place")
 	pSlowAfterFast   = simrt.NewProbe("cfb8.short.call.after.fast.path")
 	pDstLarger       = simrt.NewProbe("cfb8.dst.larger.than.src")
+	pSameArray       = simrt.NewProbe("cfb8.src.and.dst.disjoint.parts.of.one.array")
 	pRingWrap        = simrt.NewProbe("cfb8.ring.buffer.wrapped(>=33.bytes.via.slow.path)")
 	pKey24           = simrt.NewProbe("key.24.bytes")
 	pKey32           = simrt.NewProbe("key.32.bytes")
@@ -130,10 +131,27 @@ func scenarioDirect(c *harness.Ctx) {
 	afterFast := false
 	for off := 0; off < len(msg); {
 		n := callLen(tp, len(msg)-off)
-		rel := tp.Choose(3)
+		rel := tp.Choose(6)
 		src := append([]byte(nil), msg[off:off+n]...)
 		var dst []byte
 		switch rel {
+		case 3, 4, 5:
+			// src and dst are disjoint parts of ONE array (legal: they do not
+			// overlap at all), adjacent or a few bytes apart, in either order - the
+			// implementation decides its path by pointer arithmetic
+			gap := 0
+			if rel == 5 {
+				gap = 1 + tp.Choose(20)
+			}
+			arr := make([]byte, 2*n+gap)
+			if tp.Bool(1, 2) {
+				copy(arr[:n], src)
+				src, dst = arr[:n:n], arr[n+gap:]
+			} else {
+				copy(arr[n+gap:], src)
+				src, dst = arr[n+gap:], arr[:n:n]
+			}
+			pSameArray.Hit()
 		case 0: // in place
 			dst = src
 			if n > 32 {
@@ -164,7 +182,7 @@ func scenarioDirect(c *harness.Ctx) {
 				pRingWrap.Hit()
 			}
 		}
-		calls = append(calls, fmt.Sprintf("%d%s", n, []string{"i", "d", "D"}[rel]))
+		calls = append(calls, fmt.Sprintf("%d%s", n, []string{"i", "d", "D", "a", "a", "g"}[rel]))
 		func() {
 			defer func() {
 				if p := recover(); p != nil {
